@@ -8,7 +8,7 @@ from vf import q, qlist, clist, cbool, cnat, copt, frac, fr_json
 
 ID = 'C13'
 COQ_DIR = 'C13'
-COQ_HEADER = 'From V Require Import Common.Num C13.Model.\nOpen Scope Q_scope.'
+COQ_HEADER = 'From V Require Import Common.Num C13.Model C13.ModelViews.\nOpen Scope Q_scope.'
 RULE = ('histories of 3-10 operations (copy, copy_like, copy_thermal_condition, copy_phase, flow_proxy, proxy, link_with with '
         'every flag subset, unlink, set flow entry / T / P / phase / phases, scale, empty, in-process __reduce__->from_data) over a '
         'store of 2-4 real Stream/MultiStream objects (single phase, multi-phase incl. one-phase MultiStreams and upper-case '
@@ -22,7 +22,11 @@ RULE = ('histories of 3-10 operations (copy, copy_like, copy_thermal_condition, 
         '(operations read_mass / set_mass create and write through the view; the model predicts which rows the view wraps); H is read '
         'through every handle (read_H fills the property memo; families with proxies around undone state changes, and with '
         'other-package sources holding the same chemicals in different dict orders).  non-trivial = at least one operation succeeded and (a mutation changed an '
-        'observable or two streams share a cell); distinct = distinct case hash')
+        'observable or two streams share a cell); distinct = distinct case hash.  Family phase-views: histories of 3-10 operations over '
+        '2-3 streams (mostly MultiStreams of one package and phase tuple) mixing ms[phase] look-ups, writes of a flow / T / phase through '
+        'the view, copy / flow_proxy / unlink of the view with link_with, unlink, phase(s) setters, copy_like (phase expansion), mutators, '
+        'copy, proxies and reduce of the MultiStreams; compared with ModelViews.vrun: outcome of every operation, the keys of every '
+        '_streams dict in order, and values + aliasing labels over the store streams AND all cached views; non-trivial = a view exists at the end')
 ASSUMPTIONS = ['float rounding is not modelled: values compared to 1e-9 relative; inputs are dyadic so copies are exact',
                'links are only generated between streams of the same property package and, for MultiStreams, the same phase tuple '
                '(link_with checks neither); a MultiStream whose shared SparseArray was re-shaped by _expand_phases through its partner '
@@ -32,15 +36,19 @@ ASSUMPTIONS = ['float rounding is not modelled: values compared to 1e-9 relative
                'MultiStream.proxy() leaves the MultiStream-only slots (_streams, equilibrium caches) unset, so assigning phase/phases '
                'to such a proxy raises AttributeError after rebinding _imol; those assignments are skipped as well',
                'characterization_factors, price, ID are plain values in the model (the dict shared by proxy() is not a heap cell)',
-               'sub-streams ms[phase] (LockedPhase), the volumetric view and _property_cache, copy(thermo=...) / copy_flow are not modelled; '
+               'the volumetric view and _property_cache, copy(thermo=...) / copy_flow are not modelled; the per-phase views ms[phase] are '
+               'modelled (coq/C13/ModelViews.v) for __getitem__, writes of flows / T / phase through the view, copy, flow_proxy, unlink of '
+               'the view and the maintenance of _streams by the phase(s) setters; copy_like / link_with ONTO a view and the unset price '
+               'slot of a view are not; '
                'of _data_cache only the mass view is modelled (which dict an indexer holds, which rows the view wraps)']
 TRUSTED = ['model coq/C13/Model.v is hand-written from thermosteam/_stream.py, _multi_stream.py, indexer.py, _phase.py, '
            '_thermal_condition.py; SparseVector rows are dense Q lists; tie = correspondence check on values and aliasing',
            'pickle of Reaction / Chemical / Thermo is executed, not modelled (harness compares observable state)',
            'the equilibrium caches (_vle_cache, _lle_cache, _sle_cache) are executed, not modelled: after every operation their '
            'references must be the MultiStream\'s own indexer and thermal condition (eq_cache_checks)',
-           'the per-phase views ms[phase] (LockedPhase) are executed, not modelled: copies / flow proxies / pickles of a view are '
-           'checked against the property clauses on the real objects (view_checks)',
+           'the per-phase views ms[phase] (LockedPhase) are modelled by hand in coq/C13/ModelViews.v (family phase-views of the '
+           'correspondence: which views exist, their values and the aliasing of their cells with every stream of the store); '
+           'pickles of a view and copy_like onto its copy stay executed clauses (view_checks)',
            'the property memo (_property_cache, _property_cache_key) is modelled by its specification: H is a function of the '
            'current state (64 (T - 298.15) * total flow for the stub packages); read_H operations fill and use the memo']
 
@@ -263,7 +271,197 @@ def gen_cases(rng, tier):
     n = 220 if tier == 'quick' else 3500
     m = 80 if tier == 'quick' else 1200
     return ([gen_case(rng) for _ in range(n)] + targeted_cases(rng, m) + view_cases(rng, m)
-            + memo_cases(rng, m // 2) + order_cases(rng, m // 2))
+            + memo_cases(rng, m // 2) + order_cases(rng, m // 2) + subview_cases(rng, m + m // 2))
+
+# ------------------------------------------------------------------ per-phase views ms[phase] (model: coq/C13/ModelViews.v)
+VIEW_KEYS = ['g', 'l', 'l', 's', 'L', 'S']
+VOPS = ['vget', 'vget', 'vset_flow', 'vset_flow', 'vset_T', 'vset_phase', 'vcopy', 'vflow_proxy', 'vunlink']
+
+def gen_vop(rng, n):
+    o = rng.choice(VOPS); i = rng.randrange(n); p = rng.choice(VIEW_KEYS)
+    if o == 'vset_flow': return [o, i, p, rng.randrange(8), rng.choice([8., 16., 0.5, 0., 3.])]
+    if o == 'vset_T': return [o, i, p, rng.choice(TS + [310.])]
+    if o == 'vset_phase': return [o, i, p, rng.choice([p, p, 'g', 'l', 'q'])]
+    return [o, i, p]
+
+def subview_cases(rng, n):
+    """histories over MultiStreams (mostly same package and phases, so that they can be linked) in which the per-phase
+    views ms[phase] are created, written through, copied and flow-proxied between link_with / unlink / phase(s) changes /
+    copy_like with phase expansion / mutations of the MultiStream"""
+    cases = []
+    for _ in range(n):
+        pkg = rng.randrange(2); nb = len(PKGS[pkg])
+        phs = list(rng.choice([['g', 'l'], ['g', 'l'], ['l', 's'], ['g', 'l', 's'], ['L', 'l'], ['L', 'g'], ['g']]))
+        a = gen_stream(rng, 0, pkg); a.update(kind='M', phases=list(phs), flows={p: gen_vec(rng, nb) for p in phs if rng.random() < 0.8})
+        a.pop('phase', None); a.pop('flow', None)
+        b = gen_stream(rng, 1, pkg)
+        if rng.random() < 0.7:
+            b.update(kind='M', phases=list(phs), flows={p: gen_vec(rng, nb) for p in phs if rng.random() < 0.8}); b.pop('phase', None); b.pop('flow', None)
+        streams = [a, b] + ([gen_stream(rng, 2)] if rng.random() < 0.5 else [])
+        ns = len(streams)
+        vops = []
+        for _ in range(rng.randint(3, 10)):
+            r = rng.random()
+            if r < 0.55:
+                vops.append(gen_vop(rng, ns + (1 if rng.random() < 0.2 else 0)))
+            elif r < 0.75:
+                vops.append(rng.choice([['link', 0, 1, True, True, True], ['link', 1, 0, True, True, True], ['unlink', 0], ['unlink', 1],
+                                        ['link', rng.randrange(ns), rng.randrange(ns), rng.random() < 0.6, rng.random() < 0.6, rng.random() < 0.6]]))
+            elif r < 0.9:
+                vops.append(rng.choice([['set_phases', rng.randrange(ns), list(rng.choice(PHASE_SETS))], ['set_phase', rng.randrange(ns), rng.choice(['g', 'l', 's'])],
+                                        ['copy_like', rng.randrange(ns), rng.randrange(ns)], ['set_flow', rng.randrange(ns), rng.randrange(8), rng.randrange(8), rng.choice([8., 16., 0.5])],
+                                        ['set_T', rng.randrange(ns), rng.choice(TS)], ['scale', rng.randrange(ns), 2.], ['empty', rng.randrange(ns)]]))
+            else:
+                vops.append(rng.choice([['copy', rng.randrange(ns)], ['flow_proxy', rng.randrange(ns)], ['reduce', rng.randrange(ns)], ['proxy', rng.randrange(ns)]]))
+        cases.append({'streams': streams, 'vops': vops, 'rx': {'a': 1., 'b': 2., 'X': 0.5}})
+    return cases
+
+def has_views(s):
+    return type(s) is env()['tmo'].MultiStream and is_multi(s) and hasattr(s, '_streams') and not inconsistent(s)
+
+def resolve_v(store, op):
+    name = op[0]
+    if not name.startswith('v'): return resolve(store, op)
+    i = op[1] % len(store); s = store[i]
+    if not has_views(s): return ['skip']
+    if name == 'vset_flow': return [name, i, op[2], op[3] % s._imol._chemicals.size, op[4]]
+    return [name, i] + list(op[2:])
+
+def apply_vop(store, rop):
+    name = rop[0]
+    if not name.startswith('v'): return apply_op(store, rop)
+    v = store[rop[1]][rop[2]]
+    if name == 'vget': return None
+    if name == 'vset_flow': v._imol.data[rop[3]] = rop[4]; return None
+    if name == 'vset_T': v.T = rop[3]; return None
+    if name == 'vset_phase': v.phase = rop[3]; return None
+    if name == 'vcopy': return v.copy()
+    if name == 'vflow_proxy': return v.flow_proxy()
+    if name == 'vunlink': v.unlink(); return None
+    raise ValueError(name)
+
+def views_of(store):
+    """[(store index, phase key, view object)] object by object, in the order of the dict _streams"""
+    return [(k, p, v) for k, s in enumerate(store) for p, v in getattr(s, '_streams', {}).items()]
+
+def values_view(v):
+    im = v._imol
+    return {'multi': False, 'cls_ok': type(v) is env()['tmo'].Stream and not is_multi(v), 'pkg': pkg_of(v),
+            'thermo_ok': v._thermo.chemicals is im._chemicals, 'phases': [PH.get(im._phase._phase, 7)],
+            'rows': [dense(im.data, im._chemicals.size)], 'T': float(v._thermal_condition._T), 'P': float(v._thermal_condition._P),
+            'price': 0., 'cf': sorted((k, float(x)) for k, x in v.characterization_factors.items()), 'id': idclass(v)}
+
+def snapshot_v(store):
+    vws = views_of(store)
+    objs = list(store) + [v for _, _, v in vws]
+    vals = [values(s) for s in store] + [values_view(v) for _, _, v in vws]
+    ids = []
+    for s, v in zip(objs, vals):
+        c = [id(x) for x in cells(s)]
+        v['ncells'] = len(c); ids += c
+    lab = canon(ids); k = 0
+    for v in vals:
+        v['labels'] = lab[k:k + v['ncells']]; k += v['ncells']
+    return vals, [[k, PH[p]] for k, p, _ in vws]
+
+def run_impl_views(case):
+    out = {'new': [], 'ops': [], 'res': [], 'family': 'views'}
+    store = []
+    for spec in case['streams']:
+        try:
+            store.append(build_stream(spec)); out['new'].append('ok')
+        except Exception as ex:
+            if is_timeout(ex): raise
+            out['new'].append(ERR.get(type(ex).__name__, 'EOther'))
+    if not store:
+        out['final'] = []; out['keys'] = []
+        return out
+    for op in case['vops']:
+        rop = resolve_v(store, op)
+        out['ops'].append(rop)
+        try:
+            r = apply_vop(store, rop)
+            out['res'].append('ok')
+            if r is not None: store.append(r)
+        except Exception as ex:
+            if is_timeout(ex): raise
+            out['res'].append(ERR.get(type(ex).__name__, 'EOther'))
+            out.setdefault('errors', []).append(type(ex).__name__)
+    out['final'], out['keys'] = snapshot_v(store)
+    return out
+
+def cvop(o):
+    n = o[0]
+    if not n.startswith('v'): return f'(VBase {cop(o)})'
+    if n == 'vget': return f'(VGet {cnat(o[1])} {cph(o[2])})'
+    if n == 'vset_flow': return f'(VSetFlow {cnat(o[1])} {cph(o[2])} {cnat(o[3])} {q(o[4])})'
+    if n == 'vset_T': return f'(VSetT {cnat(o[1])} {cph(o[2])} {q(o[3])})'
+    if n == 'vset_phase': return f'(VSetPhase {cnat(o[1])} {cph(o[2])} {cph(o[3])})'
+    if n == 'vcopy': return f'(VCopy {cnat(o[1])} {cph(o[2])})'
+    if n == 'vflow_proxy': return f'(VFlowProxy {cnat(o[1])} {cph(o[2])})'
+    if n == 'vunlink': return f'(VUnlink {cnat(o[1])} {cph(o[2])})'
+    raise ValueError(n)
+
+def model_vops(case, out):
+    return clist([f'(VBase {cnew(s)})' for s in case['streams']] + [cvop(o) for o in out['ops']])
+
+def attached(store, name):
+    """the clause on the per-phase views: ms[p] shares exactly the row of its phase and the thermal condition of ms"""
+    for k, s in enumerate(store):
+        if not has_views(s): continue
+        for p, v in s._streams.items():
+            if type(v) is not env()['tmo'].Stream: continue
+            try: row = s._imol.data.rows[s._imol._phase_indexer(p)]
+            except Exception as ex:
+                if is_timeout(ex): raise
+                return f'subview: {name}: stream {k} keeps a view of phase {p!r}, which it no longer has'
+            if v._imol.data is not row or v._thermal_condition is not s._thermal_condition:
+                what = [w for w, bad in (('flows', v._imol.data is not row), ('T and P', v._thermal_condition is not s._thermal_condition)) if bad]
+                who = [j for j, t in enumerate(store) if t is not s and is_multi(t) and any(r is v._imol.data for r in t._imol.data.rows)]
+                return (f'subview: {name}: the view {k}[{p!r}] no longer shares the {" and ".join(what)} of stream {k}: a write through it is '
+                        f'not seen by the stream' + (f'; it still shares the flows of stream {who[0]}' if who else ''))
+    return None
+
+def oracle_views(case):
+    store = []
+    for spec in case['streams']:
+        try: store.append(build_stream(spec))
+        except Exception as ex:
+            if is_timeout(ex): raise
+            return f'constructor: raised {type(ex).__name__} on valid arguments'
+    for op in case['vops']:
+        rop = resolve_v(store, op); name = rop[0]
+        if name == 'skip': continue
+        view = None
+        if name.startswith('v'):
+            s = store[rop[1]]
+            try: s._imol._phase_indexer(rop[2])
+            except Exception as ex:
+                if is_timeout(ex): raise
+                continue      # no such phase: __getitem__ raises UndefinedPhase, nothing to check
+            try: view = s[rop[2]]
+            except Exception as ex:
+                if is_timeout(ex): raise
+                return f'subview: {name}: ms[{rop[2]!r}] raised {type(ex).__name__}'
+            snap = lambda x: (x.phase, dict(x._imol.data.dct), float(x.T), float(x.P))
+            before = snap(view)
+        try:
+            r = apply_vop(store, rop); raised = None
+        except Exception as ex:
+            if is_timeout(ex): raise
+            r = None; raised = type(ex).__name__
+        msg = attached(store, name)
+        if msg: return msg
+        if name in ('vcopy', 'vflow_proxy'):
+            if raised: return f'subview: {name}: raised {raised}'
+            if (r.phase, dict(r._imol.data.dct), float(r.T), float(r.P)) != before: return f'subview: {name}: the result differs from the view'
+            if type(r._imol._phase).__name__ != 'Phase': return f'subview: {name}: the result holds a locked phase'
+            sh = probe_shared(r, view); sh2 = {k: v for k, v in probe_shared(view, r).items() if k != 'phase'}
+            want = {'flow': name == 'vflow_proxy', 'TP': False, 'phase': False}
+            if sh != want or sh2 != {k: v for k, v in want.items() if k != 'phase'}:
+                return f'subview: {name}: shares {sh} with the view, expected {want}'
+        if r is not None: store.append(r)
+    return None
 
 # ------------------------------------------------------------------ implementation side
 def build_stream(spec):
@@ -578,6 +776,7 @@ def aux_pickles(rx):
 @cpu_limited
 def run_impl(case):
     env()
+    if 'vops' in case: return run_impl_views(case)
     out = {'new': [], 'ops': [], 'res': []}
     store = []; del _reads[:]
     for spec in case['streams']:
@@ -691,6 +890,9 @@ def coq_case(case, out):
         raise ValueError('object outside the model: class/indexer or package mismatch')
     res = clist([cerr(r) for r in out['new'] + out['res']])
     final = clist([csnap(v) for v in out['final']])
+    if 'vops' in case:
+        keys = clist([f'({cnat(k)}, {cnat(p)})' for k, p in out['keys']])
+        return f'(vrun_eqb {model_vops(case, out)} {res} {final} {keys})'
     side = out['pickle_ok'] and not out['aux'] and not out['views']
     mass = clist([clist(m, qlist) for m in out['mass']])
     keyed = clist([clist(m, qlist) for m in out['keyed']])
@@ -698,12 +900,14 @@ def coq_case(case, out):
     return f'(run_eqb {model_ops(case, out)} {res} {final} {mass} {keyed} {mph} {qlist(out["H"])} {qlist(out["reads"])} && {cbool(side)})'
 
 def coq_show(case, out):
+    if 'vops' in case: return f'(vrun_show {model_vops(case, out)})'
     return f'(run_show {model_ops(case, out)})'
 
 def nontrivial(case, out):
     if 'final' not in out or not any(r == 'ok' for r in out.get('res', [])): return False
     labs = [l for v in out['final'] for l in v['labels']]
     shared = any(l != k for k, l in enumerate(labs))
+    if 'vops' in case: return bool(out.get('keys'))     # at least one view exists at the end
     return shared or len(out['final']) > len(case['streams']) or any(o[0] in ('set_flow', 'copy_like', 'scale', 'set_T', 'set_mass') for o in out['ops'])
 
 def classify(case, out):
@@ -712,6 +916,7 @@ def classify(case, out):
         ks.append(f'op:{o[0]}:{"ok" if r == "ok" else r}')
         if o[0] == 'copy_like' and 'final' in out:
             ks.append('copy_like')
+    if 'vops' in case: ks.append('family:phase-views')
     for s in case['streams']:
         ks.append('init:' + s['kind'] + ':pkg%d' % s['pkg'] + (':n%d' % len(s['phases']) if s['kind'] == 'M' else ''))
     if 'final' in out:
@@ -815,6 +1020,7 @@ def h_check(store, k, name):
 @cpu_limited
 def oracle(case):
     env()
+    if 'vops' in case: return oracle_views(case)
     store = []
     for spec in case['streams']:
         try:
@@ -947,6 +1153,7 @@ def finding_key(case, msg):
     if head == 'unlink' and 'proxy' in msg: return 'C13:unlink-after-proxy'
     if 'bound to the phase object' in msg: return 'C13:view-phase'
     if msg.startswith('view:'): return 'C13:phase-view-copy'
+    if msg.startswith('subview:'): return 'C13:phase-view-detached' if 'no longer shares' in msg else 'C13:phase-view'
     if 'equilibrium:' in msg: return 'C13:equilibrium-cache'
     if ': H of stream' in msg: return 'C13:property-memo'
     if 'mass view' in msg: return 'C13:stale-mass-view'
@@ -1010,7 +1217,20 @@ CORPUS += [
                  _s('M', 0, phases=['g', 'l'], flows={'l': [0., 8., 0.]}, T=350.5, id='x2')],
      'ops': [['link', 1, 0, True, True, True], ['copy_like', 1, 0], ['copy_like', 0, 1], ['flow_proxy', 0], ['copy_like', 2, 0]], 'rx': _RX},
 ]
+CORPUS += [
+    {'streams': [_s('M', 0, phases=['g', 'l'], flows={'g': [1., 0., 2.], 'l': [0., 4., 0.]}, id='x1'),
+                 _s('M', 0, phases=['g', 'l'], flows={'l': [0., 8., 0.]}, T=350., id='x2')],
+     'vops': [['link', 0, 1, True, True, True], ['vget', 0, 'l'], ['unlink', 0], ['vset_flow', 0, 'l', 0, 9.], ['vset_T', 0, 'l', 333.]], 'rx': _RX},
+    {'streams': [_s('M', 0, phases=['g', 'l'], flows={'g': [1., 0., 2.], 'l': [0., 4., 0.]}, id='x1'), _s('S', 0, phase='s', flow=[7., 0., 0.], T=310., id='x2')],
+     'vops': [['vget', 0, 'l'], ['vget', 0, 'g'], ['copy_like', 0, 1], ['vget', 0, 's'], ['set_phases', 0, ['l', 's']], ['vset_flow', 0, 'l', 1, 5.],
+              ['vset_T', 0, 's', 333.], ['vcopy', 0, 'l'], ['vflow_proxy', 0, 's'], ['vunlink', 0, 'l'], ['vset_phase', 0, 'l', 'g'], ['vget', 0, 'L']], 'rx': _RX},
+]
 # witness of C13_unlink_sep_refuted (coq/C13/Props.v): a proxy holds the same indexer object, unlink does not replace it
 WITNESSES = [{'key': 'C13:unlink-after-proxy',
               'case': {'streams': [_s('S', 0, phase='l', flow=[1., 0., 2.], id='x1')],
-                       'ops': [['proxy', 0], ['unlink', 0]], 'rx': _RX}}]
+                       'ops': [['proxy', 0], ['unlink', 0]], 'rx': _RX}},
+             # witness of C13_phase_views_attached_refuted: link_with / unlink leave the cached views ms[phase] on the old rows
+             {'key': 'C13:phase-view-detached',
+              'case': {'streams': [_s('M', 0, phases=['g', 'l'], flows={'g': [1., 0., 2.], 'l': [0., 4., 0.]}, id='x1'),
+                                   _s('M', 0, phases=['g', 'l'], flows={'l': [0., 8., 0.]}, T=350., id='x2')],
+                       'vops': [['link', 0, 1, True, True, True], ['vget', 0, 'l'], ['unlink', 0]], 'rx': _RX}}]
